@@ -93,7 +93,39 @@ func c03Sibling(c *engine.Ctx, in []byte, args map[string]string) {
 	}
 }
 
+// c03ASI: a statement S that can be ended by automatic semicolon insertion gets the same tree in every context whether
+// it is followed by ";", by a line break or directly by the closing brace (or the end of the program).
+// input = S without terminator; args: ctx
+func c03ASI(c *engine.Ctx, in []byte, args map[string]string) {
+	ci, _ := strconv.Atoi(args["ctx"])
+	o := jsOptions(args["opts"])
+	stmt := string(in)
+	ref := fmt.Sprintf(c03Contexts[ci], stmt+";")
+	a0, e0 := jsParseCopy([]byte(ref), o)
+	for _, term := range []string{"", "\n", " /*c*/ ", "\n;", ";;"} {
+		p := fmt.Sprintf(c03Contexts[ci], stmt+term)
+		a1, e1 := jsParseCopy([]byte(p), o)
+		if (e0 == nil) != (e1 == nil) {
+			c.Fail("asi-changes-acceptance", fmt.Sprintf("%q is accepted=%v but %q is accepted=%v (opts %s): the spelling of the statement's end decides", ref, e0 == nil, p, e1 == nil, args["opts"]))
+			return
+		}
+		if e0 != nil {
+			c.Count("asi-both-rejected", 1)
+			continue
+		}
+		s0, s1 := a0.String(), a1.String()
+		if term == ";;" {
+			s1 = strings.Replace(s1, " Stmt()", "", 1) // the second semicolon is an empty statement; one on the next line is the statement's own
+		}
+		if s0 != s1 {
+			c.Fail("asi-changes-tree", fmt.Sprintf("%q ⇒ %s but %q ⇒ %s (opts %s)", ref, s0, p, s1, args["opts"]))
+			return
+		}
+	}
+}
+
 func c03Setup(c *engine.Ctx) {
+	c.Register(&engine.Space{Name: "js-asi", Run: c03ASI, NoMinimise: true})
 	c.Register(&engine.Space{Name: "js-tree", Run: c03Tree, NoMinimise: true})
 	c.Register(&engine.Space{Name: "js-reject", Run: c03Reject, NoMinimise: true})
 	c.Register(&engine.Space{Name: "js-flat", Run: c03Flat, NoMinimise: true})
@@ -802,6 +834,24 @@ func c03Work(c *engine.Ctx) {
 			}
 		}
 	}
+	// the end of a statement: ";", line break, nothing before "}" — for statements that begin with every word that the
+	// statement parser looks at first
+	asi := c.SpaceByName("js-asi")
+	for ci := range c03Contexts {
+		for _, st := range []string{"async", "async(a)", "async () => {}", "async a => a", "async.b", "async\n(a)", "let", "let.a", "of", "get", "set", "static", "x", "x = 1", "x++", "x()", "x`t`", "x.y", "new x", "new x()", "this", "null", "1", "'s'", "/r/g",
+			"[a]", "(a)", "`t`", "+a", "-a", "!a", "~a", "typeof a", "void 0", "delete a.b", "a ? b : c", "a, b", "a => a", "() => {}", "function(){}.call()", "class{}.x", "yield", "yield 1", "await", "await 1", "return", "return 1", "break", "continue", "throw a", "debugger",
+			"var v", "var v = 1", "let w = 1", "const k = 1", "do x; while (y)", "import('m')", "import.meta", "x = function(){}", "x = class{}", "x = {a}", "x = a => {}", "x = async () => {}", "super.x", "new.target", "arguments", "eval('1')"} {
+			k++
+			if !c.Mine(k) {
+				continue
+			}
+			for _, o := range jsOptionNames {
+				c.Exec(asi, []byte(st), map[string]string{"opts": o, "ctx": strconv.Itoa(ci)})
+				c.Count("exec", 1)
+			}
+			c.Count("asi-programs", 1)
+		}
+	}
 	// operand-less yield in front of every token that can follow it; restricted productions in class bodies; the
 	// automatic semicolon after an arrow function with a block body; cover grammar of arrow parameters
 	for _, a := range []asiCase{
@@ -814,6 +864,17 @@ func c03Work(c *engine.Ctx) {
 		{"class A{async\nfoo(){}}", "Decl(class A Field(async) Method(foo Params() Stmt({ })))", false},
 		{"x=a=>{}\n(b)", "Stmt(x=(Params(Binding(a)) => Stmt({ }))) Stmt((b))", false},
 		{"x=a=>{}\n[b]", "Stmt(x=(Params(Binding(a)) => Stmt({ }))) Stmt([b])", false},
+		{"x=a=>{}\n/re/g", "Stmt(x=(Params(Binding(a)) => Stmt({ }))) Stmt(/re/g)", false},
+		{"function*g(){yield\n/re/g}", "Decl(function* g Params() Stmt({ Stmt(yield) Stmt(/re/g) }))", false},
+		{"if(a)b\n;else c", "Stmt(if a Stmt(b) else Stmt(c))", false},
+		{"do a\n;while(b)", "Stmt(do Stmt(a) while b)", false},
+		{"a\n;b", "Stmt(a) Stmt(b)", false},
+		{"async:for(;;)break async;", "Stmt(async : Stmt(for ; ; Stmt({ Stmt(break async) })))", false},
+		{"let f;{function f(){}}", "Decl(let Binding(f)) Stmt({ Decl(function f Params() Stmt({ })) })", false},
+		{"for(let in a);", "Stmt(for let in a Stmt({ }))", false},
+		{"({[[1][0]]:b})=>b", "Stmt(Params(Binding({ [[1][0]]: Binding(b) })) => Stmt({ Stmt(return b) }))", false},
+		{"({[{x:1}.x]:b})=>b", "Stmt(Params(Binding({ [{x: 1}.x]: Binding(b) })) => Stmt({ Stmt(return b) }))", false},
+		{"for(x={['a' in b]:1};;);", "Stmt(for (x={['a' in b]: 1}) ; ; Stmt({ }))", false},
 		{"([a]=[1])=>x", "Stmt(Params(Binding([ Binding(a) ] = [1])) => Stmt({ Stmt(return x) }))", false},
 		{"({a}={b:1})=>x", "Stmt(Params(Binding({ Binding(a) } = {b: 1})) => Stmt({ Stmt(return x) }))", false},
 	} {
